@@ -367,6 +367,28 @@ def run_property(prop, tier, seed, replay, t0):
             if analyses[u]["resource"] and not analyses[u]["compile_error"]:
                 results[u] = verify_file(gens[u][0], rlimit=40)
                 analyses[u] = analyse_unit(u, results[u], gens[u][1], gens[u][0])
+        # A VC discharged under ANY solver seed is discharged (each run is a valid proof search); SMT instability must not
+        # become an alarm. Failing obligations are therefore re-tried under other seeds and only those failing in EVERY run count.
+        for u in units:
+            if analyses[u]["compile_error"]:
+                continue
+            mine = [f for f in analyses[u]["failures"] if prop in f["props"]] + [o for o in analyses[u]["other"] if o.get("props") is None or prop in o["props"]]
+            if not mine:
+                continue
+            retried = 0
+            for seed in (11, 23, 37):
+                r2 = verify_file(gens[u][0], rlimit=20, extra=["--smt-option", "smt.random_seed=%d" % seed])
+                a2 = analyse_unit(u, r2, gens[u][1], gens[u][0])
+                retried += 1
+                if a2["compile_error"]:
+                    break
+                keep = set(f["obligation"] for f in a2["failures"])
+                keep_o = set((o["kind"], o["clause"]) for o in a2["other"])
+                analyses[u]["failures"] = [f for f in analyses[u]["failures"] if f["obligation"] in keep]
+                analyses[u]["other"] = [o for o in analyses[u]["other"] if (o["kind"], o["clause"]) in keep_o]
+                if not analyses[u]["failures"] and not analyses[u]["other"]:
+                    break
+            analyses[u]["seed_retries"] = retried
     except Undecided as e:
         print("UNDECIDED property=%s: %s" % (prop, e))
         ev["coverage"] = {"evaluations": 0, "distinct_nontrivial": 0, "explanation": "undecided: %s" % e}
@@ -420,11 +442,10 @@ def run_property(prop, tier, seed, replay, t0):
             other = len(allbad) - len(bad)   # failing clauses tagged for other properties only: not this property's obligations
             n_mine = max(n - other, 0)
             obligations += n_mine
-            if (ok or allbad) and not bad:
-                discharged += n_mine
-            else:
-                discharged += max(n_mine - max(len(bad), 1), 0)
-            fn_rows.append({"unit": u, "function": fn, "obligations": n_mine, "smt_ms": res["functions"].get(fn, {}).get("time_ms", 0), "verified": bool(not bad and (ok or allbad))})
+            # every obligation of this function that is mapped to the property and was not reported failing is discharged
+            # (canary twins and clauses tagged for other properties are not part of n_mine)
+            discharged += max(n_mine - len(bad), 0)
+            fn_rows.append({"unit": u, "function": fn, "obligations": n_mine, "smt_ms": res["functions"].get(fn, {}).get("time_ms", 0), "verified": bool(not bad)})
         for h in scan_trusted(upath, rep):
             trusted.append("%s:%d %s %s" % (u, h["line"], h["name"], h["what"]))
 
@@ -475,6 +496,7 @@ def run_property(prop, tier, seed, replay, t0):
         "explanation": cfg.get("explanation", ""),
         "cached_units": [u for u in units if results[u].get("cached")],
         "bounded_stand_ins": bounded,
+        "seed_retries": {u: analyses[u].get("seed_retries", 0) for u in units},
     }
     ev["coverage"] = cov
     ev["assumptions"] = cfg.get("assumptions", []) + ["every item listed in coverage.trusted_base (mechanical scan of the generated unit)",
